@@ -22,7 +22,9 @@ TITLE = ("Equality of the S-box variants across configurations is not decided. D
          "in every configuration; (R4) every other property's rules are run in every configuration "
          "and reported under their own ids. (R5) every SKINNY block function has, as a GF(2) affine map, the linear layer of the shipped configuration; (R6) one round of every tweakey "
          "schedule loop (TK permutation, LFSR2/LFSR3, round-constant LFSR, what is xored into the schedule word) is the same "
-         "GF(2) affine map as in the shipped configuration. (R7) every site that XORs the Mantis reflection constant into k1 applies, byte for byte, the constant of the shipped configuration.")
+         "GF(2) affine map as in the shipped configuration. (R7) every site that XORs the Mantis reflection constant into k1 applies, byte for byte, the constant of the shipped configuration. (R8) the compiler / optimisation-level clause, as far as it is visible in the code: after constant loops are unrolled and "
+         "constants propagated, no shift by a constant amount >= the operand width and no operand that LLVM's folder already replaced by poison (a rotate helper "
+         "reached with count 0 computes x << width, which GCC keeps and Clang -O2 turns into garbage).")
 
 
 def canon_loc(prog, loc):
@@ -173,6 +175,124 @@ def gcc_witness(ws, cfgs):
         return list(ex.map(one, jobs))
 
 
+ARITH = ("xor", "or", "and", "add", "sub", "mul", "shl", "lshr", "ashr", "store", "ret", "zext", "sext", "trunc",
+         "icmp", "select", "call", "bitcast", "extractelement")
+
+
+def _width(ty):
+    from ..affine import shape
+    sh = shape(ty)
+    return sh[1] if sh else None
+
+
+def undefined_ops(f):
+    """[(inst, what)] operations whose result C leaves undefined for the constant operands they are reached with:
+    a shift by a constant amount >= the operand width (after the helper specialisation has unrolled constant loops
+    and propagated constants), or a value that LLVM's own folder already replaced by `poison` for that reason.
+    Returns (sites, number of shifts looked at)."""
+    out, nsh = [], 0
+    for i in f.all_insts():
+        o = i["op"]
+        ops = i.get("ops") or []
+        if o in ("shl", "lshr", "ashr") and len(ops) == 2:
+            nsh += 1
+            w = _width(i.get("type", ""))
+            amt = ops[1]
+            vals = None
+            if amt[0] == "c":
+                vals = [int(amt[1])]
+            elif amt[0] == "cv" and amt[1] and all(e[0] == "c" for e in amt[1]):
+                vals = [int(e[1]) for e in amt[1]]
+            if w and vals and any(v >= w for v in vals):
+                out.append((i, "%s of a %d-bit value by the constant %d" % (o, w, max(vals))))
+                continue
+        if o in ARITH:
+            for k, x in enumerate(ops):
+                if isinstance(x, list) and len(x) >= 3 and x[0] == "u" and x[2] == "poison":
+                    out.append((i, "operand %d of this `%s` is a value the compiler's constant folder replaced by `poison` (an operation with undefined behaviour for its constant operands, typically a shift by the full width, feeds it)" % (k, o)))
+                    break
+    return out, nsh
+
+
+def _lin(f, op, depth=0):
+    """shift amount as (a, b, k): a * parameter k + b (k None for a constant); None when it is anything else."""
+    if depth > 12:
+        return None
+    if op[0] == "c":
+        return (0, int(op[1]), None)
+    if op[0] == "cv" and op[1] and all(e[0] == "c" for e in op[1]) and len({e[1] for e in op[1]}) == 1:
+        return (0, int(op[1][0][1]), None)
+    if op[0] == "a":
+        return (1, 0, op[1])
+    if op[0] != "i" or op[1] not in f.insts:
+        return None
+    i = f.insts[op[1]]
+    o, ops = i["op"], i.get("ops") or []
+    if o in ("zext", "sext", "trunc", "bitcast", "freeze"):
+        return _lin(f, ops[0], depth + 1)
+    if o == "insertelement":
+        return _lin(f, ops[1], depth + 1)
+    if o == "shufflevector":
+        return _lin(f, ops[0], depth + 1)
+    if o in ("add", "sub", "mul", "shl") and len(ops) == 2:
+        x, y = _lin(f, ops[0], depth + 1), _lin(f, ops[1], depth + 1)
+        if x is None or y is None:
+            return None
+        if o in ("add", "sub"):
+            sg = 1 if o == "add" else -1
+            if x[2] is not None and y[2] is not None and x[2] != y[2]:
+                return None
+            return (x[0] + sg * y[0], x[1] + sg * y[1], x[2] if x[2] is not None else y[2])
+        if y[2] is None and y[0] == 0:
+            m = y[1] if o == "mul" else (1 << y[1] if 0 <= y[1] < 32 else None)
+            return None if m is None else (x[0] * m, x[1] * m, x[2])
+        if o == "mul" and x[2] is None and x[0] == 0:
+            return (y[0] * x[1], y[1] * x[1], y[2])
+    return None
+
+
+def param_shifts(prog):
+    """{helper key: [(shift inst, width, a, b, k)]}: shifts whose amount is a linear function of one integer parameter"""
+    out = {}
+    for f in prog.defined():
+        rpo = f.rpo()
+        if not rpo:
+            continue
+        # only shifts in the entry block: they execute on every call, whatever the helper tests afterwards
+        # (`count ? rotate : x` guards the shift and is left alone)
+        for i in f.bbmap[rpo[0]]["insts"]:
+            if i["op"] in ("shl", "lshr", "ashr") and len(i.get("ops") or []) == 2:
+                e = _lin(f, i["ops"][1])
+                w = _width(i.get("type", ""))
+                if e is not None and e[2] is not None and e[0] != 0 and w:
+                    out.setdefault(f.key, []).append((i, w, e[0], e[1], e[2]))
+    return out
+
+
+def undefined_calls(prog, f, PS):
+    """call sites in f that reach a helper's shift with a constant argument making the amount negative or >= width"""
+    out, n = [], 0
+    for call in f.all_insts():
+        if call["op"] != "call" or call["callee"][0] != "f":
+            continue
+        g = prog.resolve(f.unit, call["callee"][1])
+        if g is None or g.key not in PS:
+            continue
+        for (si, w, a, b, k) in PS[g.key]:
+            ops = call.get("ops") or []
+            if k >= len(ops):
+                continue
+            e = _lin(f, ops[k])
+            if e is None or e[2] is not None:
+                continue
+            n += 1
+            amt = a * e[1] + b
+            if amt < 0 or amt >= w:
+                out.append((call, "%s is called with the constant %d, which makes its `%s` of a %d-bit value shift by %d (%s)" %
+                            (g.name, e[1], si["op"], w, amt, g.loc(si))))
+    return out, n
+
+
 def run(ctx, rep):
     rep.assume("not decided: that the 64-/32-bit, unaligned/byte-wise, little-endian/neutral and vector variants compute equal values",
                "compile witnesses use the host gcc and clang with the Makefile's per-unit flags plus the override hook")
@@ -190,6 +310,7 @@ def run(ctx, rep):
     ref_names = None
     ncmp = 0
     nrout = 0
+    nshift = 0
     refH = {}
     for cfg in cfgs:
         cn = config_name(cfg)
@@ -201,6 +322,18 @@ def run(ctx, rep):
         for u in ctx.ws.units:
             rep.ok("C12.R1", "src/%s.c:clang" % u["unit"], "src/%s.c" % u["unit"], "clang accepts the unit", cfg=cn)
         an = ctx.an(cfg)
+        # ---- R8: nothing whose result depends on the compiler / optimisation level
+        PS = param_shifts(prog)
+        for f in sorted(prog.defined(), key=lambda x: x.key):
+            sites, k = undefined_ops(f)
+            cs, k2 = undefined_calls(prog, f, PS)
+            sites = sites + cs
+            k += k2
+            nshift += k
+            for (i, what) in sites:
+                rep.violation("C12.R8", construct(f), f.loc(i), "%s: %s - C leaves this undefined, so GCC, Clang and different optimisation levels compute different results here" % (f.name, what), cfg=cn)
+            if k and not sites:
+                rep.ok("C12.R8", construct(f), fsite(f), "%d shifts (own and in helpers reached with constant arguments), none by a constant amount >= the operand width, no folded-to-poison operand" % k, cfg=cn)
         cur = {}
         for f in prog.defined():
             if dispatches(an, f) or not f.params:
@@ -290,4 +423,12 @@ def run(ctx, rep):
     rep.floor("C12.R1", "unit x configuration gcc witnesses", len(res), 18 * 2)
     rep.floor("C12.R2", "function summaries compared across configurations", ncmp, 300)
     rep.floor("C12.R3", "permutation helpers compared across configurations", nrout, 20)
+    rep.floor("C12.R8", "shift instructions examined over all configurations", nshift, 1000)
+    # fixture: the rotate-by-zero shape must be flagged
+    fp = ctx.fixture("c12_bad_shift.c")
+    got = []
+    fps = param_shifts(fp)
+    for f in fp.defined():
+        got += undefined_ops(f)[0] + undefined_calls(fp, f, fps)[0]
+    rep.fixture("C12.R8", "c12_bad_shift.c", len(got) >= 1, "flagged %d site(s)" % len(got))
     rep.analysed["configurations"] = [config_name(c) for c in cfgs]
